@@ -56,6 +56,9 @@ type c18Case struct {
 	pre string
 	// lns > 0: before Kill, each side opens that many brokered listeners (broker.Accept) and leaves them open and unserved
 	lns int
+	// dup: before Kill, the plugin advertises ONE brokered ID twice and the host never asks for it (gRPC: two Accepts of the
+	// id, i.e. two connection-info messages; net/rpc: two Dials of the id, i.e. two incoming streams)
+	dup bool
 }
 
 func (c *c18Case) line() string {
@@ -69,6 +72,9 @@ func (c *c18Case) line() string {
 	}
 	if c.lns > 0 {
 		s += fmt.Sprintf(" lns=%d", c.lns)
+	}
+	if c.dup {
+		s += " dup=1"
 	}
 	return s
 }
@@ -86,6 +92,7 @@ func c18FromLine(m map[string]string) (*c18Case, error) {
 	c := &c18Case{proto: m["proto"], mux: m["mux"] == "1", auto: m["auto"] == "1", launch: m["launch"], ops: splitComma(m["ops"])}
 	fmt.Sscanf(m["procs"], "%d", &c.procs)
 	fmt.Sscanf(m["lns"], "%d", &c.lns)
+	c.dup = m["dup"] == "1"
 	if c.pre = m["pre"]; c.pre != "" && c.pre != "close" {
 		return nil, errors.New("bad pre")
 	}
@@ -455,6 +462,20 @@ func c18Session(c *c18Case) (impl, pred string, notes []string) {
 				}
 			}
 		}
+		if c.dup {
+			stage = "dup-advert"
+			if kit == nil {
+				if err := dispense(); err != nil {
+					return err
+				}
+			}
+			if l, ok := kit.(interface{ DupAdvert() error }); ok {
+				if err := l.DupAdvert(); err != nil {
+					return err
+				}
+				time.Sleep(300 * time.Millisecond) // both advertisements have reached the host's broker
+			}
+		}
 		if c.pre == "close" {
 			// the host is done with the plugin before it gets round to Kill: it closes the protocol client
 			// (which asks the plugin to shut down) and sees the plugin exit
@@ -645,6 +666,14 @@ func c18Generate(r *rng) []*c18Case {
 				c.pre = "close"
 				add(c, []string{"d", "c"}, 0)
 			}
+		}
+	}
+	// one brokered ID advertised twice by the plugin and never asked for by the host
+	for _, cf := range cfgs {
+		if !cf.auto && !cf.mux && cf.launch == "cmd" {
+			c := cf
+			c.dup = true
+			add(c, []string{"d"}, 0)
 		}
 	}
 	n := 14
